@@ -131,6 +131,12 @@ def inj_duplicate_attr(src, rng):
     return _insert_attr(src, rng, a)
 
 
+def inj_duplicate_src(src, rng):
+    # the source attribute of <include> / <import> / <wxs>, also when its first occurrence is empty or has no value
+    return src + rng.choice(['<include src="a" src="b"/>', '<include src="" src="b.wxml"/>', '<import src src="b"/>', '<wxs module="zm" src="" src="./m.wxs"/>',
+                             '<import src="a" src=""/>', '<wxs module="zm" src="./m" src="./n"/>', '<include src=".wxml" src="b"/>'])
+
+
 def inj_children_childless(src, rng):
     return src + rng.choice(['<include src="a">x</include>', '<import src="a"><view/></import>', '<wxs module="zm" src="a">exports.a=1</wxs>',
                              '<include src="a"><!-- c --><view/></include>', '<slot><!-- c -->text</slot>', '<import src="b"><!-- c --><view/></import>',
@@ -149,6 +155,7 @@ INJECTIONS = [
     ("unknown wx: directive", inj_unknown_wx, {"InvalidAttributeName", "InvalidAttribute", "InvalidAttributePrefix"}, WARN),
     ("unknown attribute prefix", inj_unknown_prefix, {"InvalidAttributePrefix", "InvalidAttributeName", "InvalidAttribute"}, WARN),
     ("duplicated attribute", inj_duplicate_attr, {"DuplicatedAttribute", "DuplicatedName"}, WARN),
+    ("duplicated src", inj_duplicate_src, {"DuplicatedAttribute", "DuplicatedName"}, WARN),
     ("children under a childless element", inj_children_childless, {"ChildNodesNotAllowed"}, ERROR),
     ("missing src / module", inj_missing_required, {"MissingSourcePath", "MissingModuleName", "InvalidAttributeValue"}, ERROR),
 ]
@@ -175,6 +182,20 @@ def run(chk):
         body = tg.Printer(r.fork("p"), vary=(i % 2 == 1)).template(g.template())
         # lines ending in something that starts like an entity (a bare `&` is plain text): position bookkeeping must survive them
         srcs.append(r.choice(["", "", "R&D\nAT&T\n", "a &\nb\n", "x &\n😀&\n\n"]) + body)
+    # well-formed expressions in minimal spelling: every operator pair x operand position (nested conditionals in either branch without
+    # parentheses, unary chains, member / call chains), as attribute value, text and directive
+    from . import exprgen as eg
+    shapes = ["a ? b ? 1 : 2 : 3", "a ? b : c ? 1 : 2", "a ? b ? c ? 1 : 2 : 3 : 4", "on ? big ? 'on big' : 'on' : ''", "a ?? b ? c : d", "a ? b ?? c : d",
+              "a || b ? c && d : e | f", "- -a", "a - -b", "typeof typeof a", "!a ? !b : !c", "a[b ? c : d]", "f(a ? b : c, d)", "{k: a ? b : c}.k", "[a ? b : c][0]"]
+    for t_ in eg.enum_depth2()[:: (7 if quick else 1)]:
+        try:
+            e_ = eg.src(tg.requote(t_, "'"), "min")
+        except Exception:
+            continue
+        if '"' not in e_:
+            shapes.append(e_)
+    for j in range(0, len(shapes), 6):
+        srcs.append("".join('<v title="{{ %s }}" wx:if="{{ %s }}">{{ %s }}</v>' % (e_, e_, e_) for e_ in shapes[j:j + 6]))
     inputs = [("clean", None, s) for s in srcs]
     for i, s in enumerate(srcs):
         r = rng.fork(("inj", i))
